@@ -997,6 +997,9 @@ class HistogramBase(abc.ABC):
                 self.errors2 = self.errors2 + other.errors2
                 # Not in place: an unknown (NaN) missed weight does not fit an integer array
                 self._missed = self._missed + other._missed
+                if not other.keep_missed:
+                    # What the other one missed is not known: neither is it for the sum
+                    self.keep_missed = False
             elif self.is_adaptive():
                 if other.missed > 0 or self.missed > 0:
                     # The new bins may cover values that were missed before
@@ -1061,6 +1064,8 @@ class HistogramBase(abc.ABC):
                 )
                 # Not in place: an unknown (NaN) missed weight does not fit an integer array
                 self._missed = self._missed - other._missed
+                if not other.keep_missed:
+                    self.keep_missed = False
             self._stats = INVALID_STATISTICS
             return self
         array = np.asarray(other)
